@@ -24,7 +24,7 @@ open Refine.Model.Formats (TMesh R Err)
 structure BFix where
   /-- `.rst`: variables, steps, dof tested against the bytes present; no pass of the loops without variables -/
   rst : Bool := false
-  /-- `.snap`: the field count tested against the bytes present -/
+  /-- `.snap`: the field count tested against the bytes present; a field length below 2^62 -/
   snap : Bool := false
   /-- `.snap`: the vertex count of a field broadcast as REF_GLOB_TYPE (it is a `REF_GLOB`) -/
   snapBcast : Bool := false
@@ -202,7 +202,7 @@ def skipPairs : Nat → P Unit
     | .ok (_, s) => skipPairs k s
 
 /-- the header of one field: `(next_position, nnode)`; `pos` = ftello before the field -/
-def snapFieldHeader (version : Nat) (bs : Bytes) : P (Int × Int) := fun s =>
+def snapFieldHeader (fx : BFix) (version : Nat) (bs : Bytes) : P (Int × Int) := fun s =>
   if version = 2 then
     match skipChars s with
     | .error e => .error e
@@ -210,6 +210,7 @@ def snapFieldHeader (version : Nat) (bs : Bytes) : P (Int × Int) := fun s =>
     match rdU64 s with
     | .error e => .error e
     | .ok (flen, s) =>
+    if fx.snap ∧ ¬ (flen < 2 ^ 62) then .error .failure else
     let next := toSigned 64 flen + tell bs s
     if ¬ (-(2 ^ 63 : Int) ≤ next ∧ next < 2 ^ 63) then .error .undefined else
     match rdU64 s with
@@ -222,6 +223,7 @@ def snapFieldHeader (version : Nat) (bs : Bytes) : P (Int × Int) := fun s =>
     match rdU64 s with
     | .error e => .error e
     | .ok (rem, s) =>
+    if fx.snap ∧ ¬ (rem < 2 ^ 62) then .error .failure else
     let next := toSigned 64 rem + tell bs s
     if ¬ (-(2 ^ 63 : Int) ≤ next ∧ next < 2 ^ 63) then .error .undefined else
     match rdU64 s with
@@ -244,7 +246,7 @@ def snapFields (fx : BFix) (version : Nat) (nGlobal : Nat) (floor : Int) (ranks 
     Nat → List (List Row) → Bytes → B (List (List Row))
   | 0, acc, _ => .ok acc
   | k + 1, acc, s =>
-    match snapFieldHeader version bs s with
+    match snapFieldHeader fx version bs s with
     | .error e => .error (.st e)
     | .ok ((next, nnode), s) =>
     if nnode ≠ nGlobal ∧ Int.tdiv nnode 2 ≠ nGlobal then .error (.st .failure) else
